@@ -1,6 +1,1602 @@
-//! C13 monitor (not built yet)
-use vcore::{Args, Report};
+//! C13 — loss detection and congestion control follow RFC 9002.
+//!
+//! The real `qcongestion::ArcCC` (NewReno) is driven through the `Transport` trait under tokio
+//! paused time by generated histories (sends, ACK frames, clock advances, ticks, epoch discards,
+//! handshake-phase toggles).  The harness keeps a ledger `pn -> {epoch,size,t_sent,flags,status}`
+//! that is updated only from what the harness itself did (sent / acked / discarded) and from the
+//! `Feedback::may_loss` call-backs; after every operation the read-only `verif_snapshot()` is
+//! compared with the ledger and with the RFC 9002 rules.  Oracle clauses (each with its own
+//! signature `C13.<clause>[:trigger]`):
+//!   a loss.later-ack   b loss.threshold   c loss.not-acked   d timer.coverage   e pto.doubling
+//!   f cwnd.floor       g cwnd.shrink-once h cwnd.grow        i bif.conservation j window
+use std::{
+    collections::{BTreeMap, BTreeSet, HashSet},
+    sync::{Arc, Mutex, atomic::AtomicU16},
+};
 
-pub fn run(_args: &Args, rep: &mut Report) {
-    rep.inconclusive("monitor not built yet");
+use qbase::{
+    Epoch,
+    frame::{AckFrame, EcnCounts},
+    net::tx::ArcSendWaker,
+    varint::VarInt,
+};
+use qcongestion::{Algorithm, ArcCC, Feedback, HandshakeStatus, PathStatus, Transport, VerifSnapshot};
+use qevent::quic::recovery::PacketLostTrigger;
+use serde_json::{Value, json};
+use tokio::time::{Duration, Instant};
+use vcore::{Args, Report, Rng};
+
+const EP: [&str; 3] = ["initial", "handshake", "data"];
+const MS: Duration = Duration::from_millis(1);
+
+// ------------------------------------------------------------------------------------------------
+// operations
+// ------------------------------------------------------------------------------------------------
+
+#[derive(Clone, Debug)]
+pub enum Op {
+    /// `on_pkt_sent(epoch, pn, ack_eliciting, size, in_flight, ack)`
+    Send { e: usize, pn: u64, size: usize, ae: bool, inf: bool, ack: Option<u64> },
+    /// `send_quota()`
+    Quota,
+    /// `on_ack_rcvd(epoch, AckFrame)`; ranges are (lo, hi), descending, separated by >= 1 missing pn
+    Ack { e: usize, ranges: Vec<(u64, u64)>, delay: u64, ecn: Option<[u64; 3]> },
+    /// `tokio::time::advance`
+    Adv { us: u64 },
+    /// `do_tick()`
+    Tick,
+    /// `discard_epoch(epoch)`
+    Discard { e: usize },
+    HsKey,
+    HsAck,
+    HsDone,
+    /// what `Path::on_packet_rcvd` does: release the anti-amplification limit, then `on_pkt_rcvd`
+    Rcvd { e: usize, pn: u64, ae: bool },
+    /// `grant_anti_amplification()`
+    Grant,
+    /// `PathStatus::enter_anti_amplification_limit()` (server ran out of credit)
+    EnterAmp,
+}
+
+impl Op {
+    fn kind(&self) -> &'static str {
+        match self {
+            Op::Send { .. } => "send",
+            Op::Quota => "quota",
+            Op::Ack { .. } => "ack",
+            Op::Adv { .. } => "advance",
+            Op::Tick => "tick",
+            Op::Discard { .. } => "discard",
+            Op::HsKey => "hskey",
+            Op::HsAck => "hsack",
+            Op::HsDone => "hsdone",
+            Op::Rcvd { .. } => "rcvd",
+            Op::Grant => "grant",
+            Op::EnterAmp => "enteramp",
+        }
+    }
+    fn to_json(&self) -> Value {
+        match self {
+            Op::Send { e, pn, size, ae, inf, ack } => json!(["send", e, pn, size, ae, inf, ack]),
+            Op::Quota => json!(["quota"]),
+            Op::Ack { e, ranges, delay, ecn } => json!(["ack", e, ranges, delay, ecn]),
+            Op::Adv { us } => json!(["adv", us]),
+            Op::Tick => json!(["tick"]),
+            Op::Discard { e } => json!(["discard", e]),
+            Op::HsKey => json!(["hskey"]),
+            Op::HsAck => json!(["hsack"]),
+            Op::HsDone => json!(["hsdone"]),
+            Op::Rcvd { e, pn, ae } => json!(["rcvd", e, pn, ae]),
+            Op::Grant => json!(["grant"]),
+            Op::EnterAmp => json!(["enteramp"]),
+        }
+    }
+    fn from_json(v: &Value) -> Op {
+        let u = |i: usize| v[i].as_u64().unwrap();
+        match v[0].as_str().unwrap() {
+            "send" => Op::Send {
+                e: u(1) as usize,
+                pn: u(2),
+                size: u(3) as usize,
+                ae: v[4].as_bool().unwrap(),
+                inf: v[5].as_bool().unwrap(),
+                ack: v[6].as_u64(),
+            },
+            "quota" => Op::Quota,
+            "ack" => Op::Ack {
+                e: u(1) as usize,
+                ranges: v[2].as_array().unwrap().iter().map(|r| (r[0].as_u64().unwrap(), r[1].as_u64().unwrap())).collect(),
+                delay: u(3),
+                ecn: v[4].as_array().map(|a| [a[0].as_u64().unwrap(), a[1].as_u64().unwrap(), a[2].as_u64().unwrap()]),
+            },
+            "adv" => Op::Adv { us: u(1) },
+            "tick" => Op::Tick,
+            "discard" => Op::Discard { e: u(1) as usize },
+            "hskey" => Op::HsKey,
+            "hsack" => Op::HsAck,
+            "hsdone" => Op::HsDone,
+            "rcvd" => Op::Rcvd { e: u(1) as usize, pn: u(2), ae: v[3].as_bool().unwrap() },
+            "grant" => Op::Grant,
+            "enteramp" => Op::EnterAmp,
+            other => panic!("unknown op {other}"),
+        }
+    }
+}
+
+#[derive(Clone, Debug)]
+pub struct Scenario {
+    server: bool,
+    mtu: u16,
+    mad_ms: u64,
+}
+
+impl Scenario {
+    fn to_json(&self) -> Value {
+        json!({"server": self.server, "mtu": self.mtu, "mad_ms": self.mad_ms})
+    }
+    fn from_json(v: &Value) -> Scenario {
+        Scenario {
+            server: v["server"].as_bool().unwrap(),
+            mtu: v["mtu"].as_u64().unwrap() as u16,
+            mad_ms: v["mad_ms"].as_u64().unwrap(),
+        }
+    }
+}
+
+fn ack_frame(ranges: &[(u64, u64)], delay: u64, ecn: Option<[u64; 3]>) -> AckFrame {
+    let vi = |x: u64| VarInt::from_u64(x).unwrap();
+    let (lo0, hi0) = ranges[0];
+    let mut prev_lo = lo0;
+    let mut rest = vec![];
+    for &(lo, hi) in &ranges[1..] {
+        rest.push((vi(prev_lo - hi - 2), vi(hi - lo)));
+        prev_lo = lo;
+    }
+    AckFrame::new(vi(hi0), vi(delay), vi(hi0 - lo0), rest, ecn.map(|c| EcnCounts::new(vi(c[0]), vi(c[1]), vi(c[2]))))
+}
+
+// ------------------------------------------------------------------------------------------------
+// the monitored system: real controller + ledger + oracle
+// ------------------------------------------------------------------------------------------------
+
+#[derive(Clone, Copy, PartialEq, Eq, Debug)]
+enum St {
+    Out,
+    Acked,
+    Lost,
+    Disc,
+}
+
+#[derive(Clone, Debug)]
+struct Pkt {
+    size: usize,
+    t: Instant,
+    ae: bool,
+    inf: bool,
+    st: St,
+}
+
+struct Tracker {
+    e: usize,
+    log: Arc<Mutex<Vec<(usize, Vec<u64>)>>>,
+}
+
+impl Feedback for Tracker {
+    fn may_loss(&self, _trigger: PacketLostTrigger, pns: &mut dyn Iterator<Item = u64>) {
+        self.log.lock().unwrap().push((self.e, pns.collect()));
+    }
+}
+
+pub struct Fail {
+    sig: String,
+    what: String,
+    step: usize,
+}
+
+struct Sim {
+    sc: Scenario,
+    cc: ArcCC,
+    status: PathStatus,
+    hs: Arc<HandshakeStatus>,
+    t0: Instant,
+    log: Arc<Mutex<Vec<(usize, Vec<u64>)>>>,
+    // ledger
+    led: [BTreeMap<u64, Pkt>; 3],
+    largest_acked: [Option<u64>; 3],
+    discarded: [bool; 3],
+    last_ae: [Option<Instant>; 3],
+    out_ae: [usize; 3],
+    led_bif: usize,
+    bif_delta: i64,
+    ce_max: [u64; 3],
+    // phase flags as the harness set them
+    amp_limited: bool,
+    hs_key: bool,
+    hs_ack: bool,
+    hs_done: bool,
+    // oracle state
+    pre: VerifSnapshot,
+    last_dec: Option<Instant>,
+    /// like `last_dec` but not forgotten at a persistent-congestion collapse (statistics only)
+    last_dec_shadow: Option<Instant>,
+    last_progress: Instant,
+    bound_since_progress: Duration,
+    bound_max: Duration,
+    chain: Vec<(Instant, u32)>, // PTO expiries with nothing but advance/tick in between: (time, pto_count before)
+    // results
+    nops: usize,
+    dead: bool,
+    abandoned: bool,
+    last_quota: Option<usize>,
+    fails: Vec<Fail>,
+    fail_sigs: HashSet<String>,
+    stats: BTreeMap<&'static str, u64>,
+    states: HashSet<u64>,
+    n_loss: u64,
+    n_newack: u64,
+    n_cwnd_change: u64,
+    trace: bool,
+}
+
+fn dur_us(d: Duration) -> u64 {
+    d.as_micros() as u64
+}
+
+impl Sim {
+    fn new(sc: &Scenario) -> Sim {
+        let log = Arc::new(Mutex::new(Vec::new()));
+        let hs = Arc::new(HandshakeStatus::new(sc.server));
+        let status = PathStatus::new(hs.clone(), Arc::new(AtomicU16::new(sc.mtu)));
+        let trackers: [Arc<dyn Feedback>; 3] = [
+            Arc::new(Tracker { e: 0, log: log.clone() }),
+            Arc::new(Tracker { e: 1, log: log.clone() }),
+            Arc::new(Tracker { e: 2, log: log.clone() }),
+        ];
+        let cc = ArcCC::new(Algorithm::NewReno, Duration::from_millis(sc.mad_ms), trackers, status.clone(), ArcSendWaker::new());
+        let pre = cc.verif_snapshot();
+        let now = Instant::now();
+        Sim {
+            sc: sc.clone(),
+            cc,
+            status,
+            hs,
+            t0: now,
+            log,
+            led: Default::default(),
+            largest_acked: [None; 3],
+            discarded: [false; 3],
+            last_ae: [None; 3],
+            out_ae: [0; 3],
+            led_bif: 0,
+            bif_delta: 0,
+            ce_max: [0; 3],
+            amp_limited: true,
+            hs_key: false,
+            hs_ack: false,
+            hs_done: false,
+            pre,
+            last_dec: None,
+            last_dec_shadow: None,
+            last_progress: now,
+            bound_since_progress: Duration::ZERO,
+            bound_max: Duration::ZERO,
+            chain: vec![],
+            nops: 0,
+            dead: false,
+            abandoned: false,
+            last_quota: None,
+            fails: vec![],
+            fail_sigs: HashSet::new(),
+            stats: BTreeMap::new(),
+            states: HashSet::new(),
+            n_loss: 0,
+            n_newack: 0,
+            n_cwnd_change: 0,
+            trace: false,
+        }
+    }
+
+    fn mtu(&self) -> usize {
+        self.sc.mtu as usize
+    }
+    fn us(&self, t: Instant) -> u64 {
+        dur_us(t.saturating_duration_since(self.t0))
+    }
+    fn us_ceil(&self, t: Instant) -> u64 {
+        (t.saturating_duration_since(self.t0).as_nanos() as u64).div_ceil(1000)
+    }
+    fn now_us(&self) -> u64 {
+        self.us(Instant::now())
+    }
+    fn stat(&mut self, k: &'static str) {
+        *self.stats.entry(k).or_insert(0) += 1;
+    }
+    fn stat_max(&mut self, k: &'static str, v: u64) {
+        let e = self.stats.entry(k).or_insert(0);
+        *e = (*e).max(v);
+    }
+    fn fail(&mut self, sig: String, what: String) {
+        if self.fail_sigs.insert(sig.clone()) {
+            self.fails.push(Fail { sig, what, step: self.nops - 1 });
+        }
+    }
+    fn peer_validated(&self) -> bool {
+        self.sc.server || self.hs_ack || self.hs_done
+    }
+    /// an outstanding ack-eliciting in-flight packet that the RFC requires a timer for
+    fn eligible_outstanding(&self) -> bool {
+        self.out_ae[0] > 0 || self.out_ae[1] > 0 || (self.out_ae[2] > 0 && self.hs_done)
+    }
+    fn set_status(&mut self, e: usize, pn: u64, st: St) {
+        let p = self.led[e].get_mut(&pn).unwrap();
+        if p.st == St::Out {
+            if p.inf {
+                self.led_bif -= p.size;
+            }
+            if p.ae && p.inf {
+                self.out_ae[e] -= 1;
+            }
+        }
+        p.st = st;
+    }
+    fn mark_discarded(&mut self, e: usize) {
+        let pns: Vec<u64> = self.led[e].iter().filter(|(_, p)| p.st == St::Out).map(|(pn, _)| *pn).collect();
+        for pn in pns {
+            self.set_status(e, pn, St::Disc);
+        }
+        self.discarded[e] = true;
+        self.last_ae[e] = None;
+    }
+
+    /// RFC 9002 A.8 GetPtoTimeAndSpace with the controller's own RTT estimate; `doubled_all` = false
+    /// computes the variant in which only the rttvar term is backed off.
+    fn rfc_pto_timer(&self, s: &VerifSnapshot, now: Instant, whole_backoff: bool) -> Option<Instant> {
+        let k = s.pto_count.min(20);
+        let var = std::cmp::max(4 * s.rttvar, MS);
+        let d = if whole_backoff { (s.smoothed_rtt + var) * (1 << k) } else { s.smoothed_rtt + var * (1 << k) };
+        let any_ae = (0..3).any(|e| self.led[e].values().any(|p| p.st == St::Out && p.ae));
+        if !any_ae {
+            if self.peer_validated() {
+                return None;
+            }
+            return Some(now + d);
+        }
+        let mut t: Option<Instant> = None;
+        for e in 0..3 {
+            if !self.led[e].values().any(|p| p.st == St::Out && p.ae) {
+                continue;
+            }
+            let mut dur = d;
+            if e == 2 {
+                if !self.hs_done {
+                    return t;
+                }
+                dur += s.max_ack_delay * (1 << k);
+            }
+            let Some(last) = self.last_ae[e] else { continue };
+            let cand = last + dur;
+            if t.is_none_or(|x| cand < x) {
+                t = Some(cand);
+            }
+        }
+        t
+    }
+
+    async fn apply(&mut self, op: &Op) {
+        if self.dead {
+            return;
+        }
+        self.nops += 1;
+        let kind = op.kind();
+        let mut newly: Vec<(usize, u64, bool)> = vec![]; // (epoch, pn, was declared lost before)
+        let mut ce_up: Option<usize> = None;
+        let mut tick_err = false;
+        let mut quota: Option<Option<usize>> = None;
+        let mut panicked: Option<vcore::panics::PanicRecord> = None;
+        let mut first_discard = false;
+        if !matches!(op, Op::Adv { .. } | Op::Tick) {
+            self.chain.clear();
+        }
+        let cc = self.cc.clone();
+        match op {
+            Op::Send { e, pn, size, ae, inf, ack } => {
+                let now = Instant::now();
+                if let Err(p) = vcore::panics::catch(|| cc.on_pkt_sent(Epoch::EPOCHS[*e], *pn, *ae, *size, *inf, *ack)) {
+                    panicked = Some(p);
+                }
+                self.led[*e].insert(*pn, Pkt { size: *size, t: now, ae: *ae, inf: *inf, st: St::Out });
+                if *inf {
+                    self.led_bif += size;
+                    if *ae {
+                        self.out_ae[*e] += 1;
+                        self.last_ae[*e] = Some(now);
+                        self.last_progress = now;
+                    }
+                }
+                // RFC 9001 4.9.1: a client discards Initial keys when it first sends a Handshake packet
+                if *e == 1 && !self.sc.server && !self.discarded[0] {
+                    self.mark_discarded(0);
+                    first_discard = true;
+                }
+            }
+            Op::Quota => match vcore::panics::catch(|| cc.send_quota()) {
+                Ok(Ok(q)) => quota = Some(Some(q)),
+                Ok(Err(_)) => quota = Some(None),
+                Err(p) => panicked = Some(p),
+            },
+            Op::Ack { e, ranges, delay, ecn } => {
+                let frame = ack_frame(ranges, *delay, *ecn);
+                let la = self.largest_acked[*e].map_or(ranges[0].1, |l| l.max(ranges[0].1));
+                self.largest_acked[*e] = Some(la);
+                for &(lo, hi) in ranges {
+                    let pns: Vec<(u64, St)> = self.led[*e].range(lo..=hi).map(|(pn, p)| (*pn, p.st)).collect();
+                    for (pn, st) in pns {
+                        if st == St::Out || st == St::Lost {
+                            newly.push((*e, pn, st == St::Lost));
+                            self.set_status(*e, pn, St::Acked);
+                        }
+                    }
+                }
+                // The controller only looks at ECN counts when it saw newly acknowledged packets.  A packet
+                // that was declared lost earlier may already have been dropped from its list, so only an
+                // ACK that newly acknowledges an outstanding packet certainly advanced its CE baseline.
+                if let Some(c) = ecn {
+                    if c[2] > self.ce_max[*e] && !newly.is_empty() {
+                        ce_up = Some(*e);
+                        if newly.iter().any(|n| !n.2) {
+                            self.ce_max[*e] = c[2];
+                        }
+                    }
+                }
+                if let Err(p) = vcore::panics::catch(|| cc.on_ack_rcvd(Epoch::EPOCHS[*e], &frame)) {
+                    panicked = Some(p);
+                }
+            }
+            Op::Adv { us } => {
+                tokio::time::advance(Duration::from_micros(*us)).await;
+            }
+            Op::Tick => match vcore::panics::catch(|| cc.do_tick()) {
+                Ok(Ok(())) => {}
+                Ok(Err(_)) => tick_err = true,
+                Err(p) => panicked = Some(p),
+            },
+            Op::Discard { e } => {
+                if let Err(p) = vcore::panics::catch(|| cc.discard_epoch(Epoch::EPOCHS[*e])) {
+                    panicked = Some(p);
+                }
+                first_discard = true;
+                self.mark_discarded(*e);
+                self.last_progress = Instant::now();
+            }
+            Op::HsKey => {
+                self.hs.got_handshake_key();
+                self.hs_key = true;
+            }
+            Op::HsAck => {
+                self.hs.received_handshake_ack();
+                self.hs_ack = true;
+            }
+            Op::HsDone => {
+                self.hs.handshake_confirmed();
+                self.hs_done = true;
+                self.last_progress = Instant::now();
+            }
+            Op::Rcvd { e, pn, ae } => {
+                self.status.release_anti_amplification_limit();
+                if self.amp_limited {
+                    self.last_progress = Instant::now();
+                }
+                self.amp_limited = false;
+                if let Err(p) = vcore::panics::catch(|| cc.on_pkt_rcvd(Epoch::EPOCHS[*e], *pn, *ae)) {
+                    panicked = Some(p);
+                }
+            }
+            Op::Grant => {
+                if let Err(p) = vcore::panics::catch(|| cc.grant_anti_amplification()) {
+                    panicked = Some(p);
+                }
+                if self.amp_limited {
+                    self.last_progress = Instant::now();
+                }
+                self.amp_limited = false;
+            }
+            Op::EnterAmp => {
+                self.status.enter_anti_amplification_limit();
+                self.amp_limited = true;
+            }
+        }
+        self.stat(match kind {
+            "send" => "op_send",
+            "quota" => "op_quota",
+            "ack" => "op_ack",
+            "advance" => "op_advance",
+            "tick" => "op_tick",
+            "discard" => "op_discard",
+            "rcvd" => "op_rcvd",
+            _ => "op_phase_toggle",
+        });
+        if let Some(p) = panicked {
+            let loc = vcore::panics::short_location(&p.location);
+            self.fail(format!("C13.panic:{loc}"), format!("{kind} panicked inside the controller: {} at {loc}", p.message));
+            self.dead = true;
+            return;
+        }
+        let now = Instant::now();
+        let post = self.cc.verif_snapshot();
+        self.stat("snapshots");
+        let pre = self.pre.clone();
+        let losses: Vec<(usize, Vec<u64>)> = std::mem::take(&mut *self.log.lock().unwrap());
+
+        // ---------------- a, b, c: every loss declaration -----------------------------------------
+        let thr = std::cmp::max(std::cmp::min(pre.loss_delay, post.loss_delay), MS);
+        let mut lost_now: Vec<(usize, u64)> = vec![];
+        for (e, pns) in &losses {
+            let e = *e;
+            for &pn in pns {
+                self.stat("loss_declarations");
+                self.n_loss += 1;
+                let Some(p) = self.led[e].get(&pn).cloned() else {
+                    self.fail("C13.loss.not-acked:unknown-pn".into(), format!("{} pn {pn} declared lost but was never sent", EP[e]));
+                    continue;
+                };
+                match p.st {
+                    St::Acked => {
+                        self.fail(
+                            "C13.loss.not-acked:acked-then-lost".into(),
+                            format!("{} pn {pn} declared lost during {kind} although it had been acknowledged", EP[e]),
+                        );
+                        continue;
+                    }
+                    St::Lost => {
+                        self.fail("C13.loss.not-acked:lost-twice".into(), format!("{} pn {pn} declared lost a second time during {kind}", EP[e]));
+                        continue;
+                    }
+                    St::Disc => {
+                        self.fail("C13.loss.not-acked:discarded-epoch".into(), format!("{} pn {pn} declared lost after its epoch was discarded", EP[e]));
+                        continue;
+                    }
+                    St::Out => {}
+                }
+                let age = now.saturating_duration_since(p.t);
+                let old_enough = age >= thr;
+                let la = self.largest_acked[e];
+                let later = la.is_some_and(|l| l > pn);
+                let reordered = la.is_some_and(|l| l >= pn + 3);
+                if !later {
+                    if old_enough {
+                        self.stat("loss_without_later_ack_time_branch");
+                        self.fail(
+                            "C13.loss.later-ack:time-threshold-branch".into(),
+                            format!(
+                                "{} pn {pn} (sent at {} us, age {} us >= time threshold {} us) declared lost during {kind} at {} us although no later packet was acknowledged (largest acked {:?})",
+                                EP[e], self.us(p.t), dur_us(age), dur_us(thr), self.us(now), la
+                            ),
+                        );
+                    } else {
+                        self.fail(
+                            "C13.loss.later-ack:packet-threshold-branch".into(),
+                            format!(
+                                "{} pn {pn} (age {} us < time threshold {} us) declared lost during {kind} although no later packet was acknowledged (largest acked {:?})",
+                                EP[e], dur_us(age), dur_us(thr), la
+                            ),
+                        );
+                    }
+                } else if reordered {
+                    self.stat("loss_by_packet_threshold_ok");
+                } else {
+                    self.stat("loss_by_time_threshold_ok");
+                }
+                if !reordered && !old_enough {
+                    let gap = match la {
+                        Some(l) if l > pn => format!("gap{}", l - pn),
+                        _ => "no-later-ack".into(),
+                    };
+                    self.fail(
+                        format!("C13.loss.threshold:{gap}-young"),
+                        format!(
+                            "{} pn {pn} declared lost during {kind}: largest acked {:?} is less than 3 ahead and age {} us < time threshold {} us (loss_delay before/after op {} / {} us)",
+                            EP[e], la, dur_us(age), dur_us(thr), dur_us(pre.loss_delay), dur_us(post.loss_delay)
+                        ),
+                    );
+                }
+                lost_now.push((e, pn));
+            }
+        }
+        // persistent-congestion exemption: >= 3 adjacent sent packets of one epoch lost in this op
+        let mut persistent = false;
+        {
+            let set: BTreeSet<(usize, u64)> = lost_now.iter().copied().collect();
+            for e in 0..3 {
+                let mut run = 0;
+                for (pn, _) in self.led[e].iter() {
+                    if set.contains(&(e, *pn)) {
+                        run += 1;
+                        if run >= 3 {
+                            persistent = true;
+                        }
+                    } else {
+                        run = 0;
+                    }
+                }
+            }
+        }
+        let mut newest_lost_inflight: Option<Instant> = None;
+        for &(e, pn) in &lost_now {
+            let p = self.led[e][&pn].clone();
+            if p.inf {
+                newest_lost_inflight = Some(newest_lost_inflight.map_or(p.t, |t| t.max(p.t)));
+            }
+            self.set_status(e, pn, St::Lost);
+        }
+        if !lost_now.is_empty() {
+            self.last_progress = now;
+        }
+        // server: first Handshake ACK processed => Initial keys are gone (the controller discards the space itself)
+        if let Op::Ack { e: 1, .. } = op {
+            if self.sc.server && !self.discarded[0] {
+                self.mark_discarded(0);
+                first_discard = true;
+            }
+        }
+        if !newly.is_empty() {
+            self.last_progress = now;
+            self.n_newack += 1;
+            self.stat("acks_with_newly_acked");
+            if newly.iter().any(|n| n.2) {
+                self.stat("acks_of_packets_already_declared_lost");
+            }
+        }
+
+        // ---------------- loss_delay itself (time threshold factor) ------------------------------
+        {
+            let want = std::cmp::max(post.smoothed_rtt.mul_f64(1.125 * (1.0 - 1e-5)), MS);
+            if post.loss_delay < want {
+                self.fail(
+                    "C13.loss.threshold:time-factor-below-9/8".into(),
+                    format!("controller's time threshold {} us is below max(9/8 * smoothed_rtt, 1 ms) = {} us", dur_us(post.loss_delay), dur_us(want)),
+                );
+            }
+        }
+
+        // ---------------- i: bytes in flight ------------------------------------------------------
+        self.stat("bif_checks");
+        // report the operation that introduces (or changes) a discrepancy, not every later snapshot
+        let delta = post.bytes_in_flight as i64 - self.led_bif as i64;
+        let changed = delta != self.bif_delta;
+        self.bif_delta = delta;
+        if changed && delta != 0 {
+            let dir = if post.bytes_in_flight > self.led_bif { "over" } else { "under" };
+            self.fail(
+                format!("C13.bif.conservation:{dir}-after-{kind}"),
+                format!("after {kind}: controller bytes_in_flight {} != ledger sum of outstanding in-flight packets {}", post.bytes_in_flight, self.led_bif),
+            );
+        }
+        self.stat_max("max_bytes_in_flight", post.bytes_in_flight as u64);
+
+        // ---------------- f: floor -----------------------------------------------------------------
+        if post.congestion_window < 2 * self.mtu() {
+            self.fail(
+                format!("C13.cwnd.floor:after-{kind}"),
+                format!("congestion window {} < 2 * max_datagram_size {} after {kind}", post.congestion_window, 2 * self.mtu()),
+            );
+        }
+        self.stat_max("max_cwnd", post.congestion_window as u64);
+
+        // ---------------- g: shrink once per round trip -------------------------------------------
+        let last_dec_before = self.last_dec;
+        let shrink = post.congestion_window < pre.congestion_window || post.ssthresh != pre.ssthresh;
+        if post.congestion_window != pre.congestion_window {
+            self.n_cwnd_change += 1;
+        }
+        if shrink {
+            self.stat("window_reductions");
+            let ecn_trigger: Option<Instant> = ce_up.and_then(|e| newly.iter().filter(|n| n.0 == e).map(|n| n.1).max().map(|pn| self.led[e][&pn].t));
+            if persistent {
+                self.stat("window_reductions_persistent_exempt");
+                self.last_dec = None;
+            } else {
+                let newest = match (newest_lost_inflight, ecn_trigger) {
+                    (Some(a), Some(b)) => Some(a.max(b)),
+                    (a, b) => a.or(b),
+                };
+                match newest {
+                    None => self.fail(
+                        format!("C13.cwnd.shrink-once:no-trigger-{kind}"),
+                        format!(
+                            "window reduced during {kind} (cwnd {} -> {}, ssthresh {} -> {}) although no in-flight packet was declared lost and no new CE mark was reported",
+                            pre.congestion_window, post.congestion_window, pre.ssthresh as u128, post.ssthresh as u128
+                        ),
+                    ),
+                    Some(t) => {
+                        if self.last_dec.is_some() {
+                            self.stat("shrink_checks_against_previous_reduction");
+                        }
+                        if ecn_trigger.is_some() && newest_lost_inflight.is_none() {
+                            self.stat("window_reductions_by_ecn_only");
+                        }
+                        if self.last_dec.is_none() && self.last_dec_shadow.is_some_and(|d| t <= d) {
+                            self.stat("window_reductions_again_in_same_round_trip_after_persistent_collapse");
+                        }
+                        if self.last_dec.is_some_and(|d| t <= d) {
+                            let why = if newest_lost_inflight.is_some() { "loss" } else { "ecn" };
+                            self.fail(
+                                format!("C13.cwnd.shrink-once:same-round-trip-{why}"),
+                                format!(
+                                    "window reduced again during {kind} (cwnd {} -> {}): newest lost/CE-marked packet was sent at {} us, not after the previous reduction at {} us",
+                                    pre.congestion_window, post.congestion_window, self.us(t), self.us(self.last_dec.unwrap())
+                                ),
+                            );
+                        } else {
+                            self.stat("window_reductions_new_round_trip");
+                        }
+                        self.last_dec = Some(now);
+                    }
+                }
+            }
+            self.last_dec_shadow = Some(now);
+        } else if persistent {
+            self.last_dec = None;
+        }
+
+        // ---------------- h: growth ---------------------------------------------------------------
+        if post.congestion_window > pre.congestion_window {
+            self.stat("window_increases");
+            let grow = post.congestion_window - pre.congestion_window;
+            if !matches!(op, Op::Ack { .. }) {
+                self.fail(
+                    format!("C13.cwnd.grow:outside-ack-{kind}"),
+                    format!("congestion window grew {} -> {} during {kind}", pre.congestion_window, post.congestion_window),
+                );
+            } else {
+                // reference for "recovery": the previous reduction the monitor saw (before this op's own reduction)
+                let rs = last_dec_before;
+                let eligible: usize = newly
+                    .iter()
+                    .map(|&(e, pn, _)| &self.led[e][&pn])
+                    .filter(|p| p.inf && rs.is_none_or(|r| p.t > r))
+                    .map(|p| p.size)
+                    .sum();
+                if eligible == 0 {
+                    self.fail(
+                        "C13.cwnd.grow:in-recovery".into(),
+                        format!(
+                            "congestion window grew {} -> {} on an ACK whose newly acknowledged in-flight packets were all sent before the last reduction ({:?} us)",
+                            pre.congestion_window, post.congestion_window, rs.map(|r| self.us(r))
+                        ),
+                    );
+                } else if grow > eligible {
+                    self.fail(
+                        "C13.cwnd.grow:exceeds-acked-bytes".into(),
+                        format!("congestion window grew by {grow} on an ACK that newly acknowledged only {eligible} bytes sent outside recovery"),
+                    );
+                }
+            }
+        }
+
+        // ---------------- e: PTO back-off ----------------------------------------------------------
+        if post.pto_count > pre.pto_count {
+            self.stat("pto_expiries");
+            self.stat_max("max_pto_count", post.pto_count as u64);
+            self.last_progress = now;
+            if !matches!(op, Op::Tick) || post.pto_count != pre.pto_count + 1 {
+                self.fail(
+                    format!("C13.pto.doubling:count-jump-{kind}"),
+                    format!("pto_count went {} -> {} during {kind}", pre.pto_count, post.pto_count),
+                );
+            }
+        }
+        if post.pto_count < pre.pto_count {
+            let legit = match op {
+                Op::Ack { .. } => !newly.is_empty(),
+                Op::Discard { .. } => true,
+                _ => first_discard,
+            };
+            if legit {
+                self.stat("pto_count_resets");
+            } else {
+                self.fail(
+                    format!("C13.pto.doubling:reset-by-{kind}"),
+                    format!(
+                        "pto_count reset {} -> {} by {kind} without a newly acknowledging ACK and without a (first) key discard: the probe interval stops doubling",
+                        pre.pto_count, post.pto_count
+                    ),
+                );
+            }
+        }
+        let need_pre: usize = pre.need_send_ack_eliciting_packets.iter().sum();
+        let need_post: usize = post.need_send_ack_eliciting_packets.iter().sum();
+        if need_post > need_pre {
+            self.stat("probes_requested");
+            self.last_progress = now;
+            if post.pto_count <= pre.pto_count {
+                self.fail(
+                    format!("C13.pto.doubling:probe-without-backoff-{kind}"),
+                    format!("a probe was requested during {kind} but pto_count stayed {} -> {}: the next probe timeout is not doubled", pre.pto_count, post.pto_count),
+                );
+            }
+        }
+        // e.1 arming value whenever the timer was (re)computed from the PTO rule in this op
+        let loss_time_armed = post.spaces.iter().any(|s| s.loss_time.is_some());
+        // (the RFC re-computes the timer at the end of every ACK that newly acknowledged something)
+        let acked_outstanding = newly.iter().any(|n| !n.2);
+        let recomputed = post.loss_detection_timer != pre.loss_detection_timer || acked_outstanding;
+        if !loss_time_armed && !self.amp_limited && !tick_err && post.loss_detection_timer.is_some() && recomputed {
+            if let Some(want) = self.rfc_pto_timer(&post, now, true) {
+                let got = post.loss_detection_timer.unwrap();
+                self.stat("pto_arming_checks");
+                let diff = if got > want { got - want } else { want - got };
+                if diff > Duration::from_micros(2) {
+                    let alt = self.rfc_pto_timer(&post, now, false);
+                    let cls = if alt.is_some_and(|a| (if got > a { got - a } else { a - got }) <= Duration::from_micros(2)) {
+                        "srtt-term-not-doubled"
+                    } else {
+                        "period-mismatch"
+                    };
+                    self.fail(
+                        format!("C13.pto.doubling:{cls}"),
+                        format!(
+                            "after {kind} with pto_count {} the probe timer is armed {} us from now; RFC 9002 (smoothed_rtt {} us + max(4*rttvar {} us, 1 ms) [+ max_ack_delay]) * 2^pto_count gives {} us",
+                            post.pto_count,
+                            dur_us(got.saturating_duration_since(now)),
+                            dur_us(post.smoothed_rtt),
+                            dur_us(post.rttvar),
+                            dur_us(want.saturating_duration_since(now))
+                        ),
+                    );
+                }
+            }
+        }
+        // e.2 black-box: expiries driven exactly at the timer with nothing in between double their spacing
+        if matches!(op, Op::Tick) {
+            let rtt_same = post.smoothed_rtt == pre.smoothed_rtt && post.rttvar == pre.rttvar;
+            if post.pto_count == pre.pto_count + 1 && lost_now.is_empty() && rtt_same && pre.loss_detection_timer.is_some_and(|t| t <= now && now - t <= Duration::from_micros(1)) {
+                if self.chain.last().is_some_and(|l| l.1 + 1 != pre.pto_count) {
+                    self.chain.clear();
+                }
+                self.chain.push((now, pre.pto_count));
+                let n = self.chain.len();
+                if n >= 3 {
+                    let i1 = self.chain[n - 2].0 - self.chain[n - 3].0;
+                    let i2 = self.chain[n - 1].0 - self.chain[n - 2].0;
+                    self.stat("pto_interval_ratio_checks");
+                    let want = i1 * 2;
+                    let diff = if i2 > want { i2 - want } else { want - i2 };
+                    if diff > Duration::from_micros(4) {
+                        // intervals of the form s + v*2^k: differences double although the intervals do not
+                        let cls = if n >= 4 {
+                            let i0 = self.chain[n - 3].0 - self.chain[n - 4].0;
+                            let d1 = i1.saturating_sub(i0) * 2;
+                            let d2 = i2.saturating_sub(i1);
+                            if (if d1 > d2 { d1 - d2 } else { d2 - d1 }) <= Duration::from_micros(8) { "srtt-term-not-doubled" } else { "interval-ratio" }
+                        } else if i2 < want && i2 > i1 {
+                            "srtt-term-not-doubled"
+                        } else {
+                            "interval-ratio"
+                        };
+                        self.fail(
+                            format!("C13.pto.doubling:{cls}"),
+                            format!(
+                                "consecutive probe timeouts (pto_count {} -> {}) with no ack in between came {} us and then {} us apart; the interval must double",
+                                pre.pto_count, post.pto_count, dur_us(i1), dur_us(i2)
+                            ),
+                        );
+                    }
+                }
+            } else if post.pto_count != pre.pto_count || !lost_now.is_empty() || !rtt_same {
+                self.chain.clear();
+            }
+        }
+        if tick_err {
+            self.stat("too_many_ptos");
+            self.abandoned = true;
+            self.dead = true;
+        }
+
+        // ---------------- d: timer coverage --------------------------------------------------------
+        if !self.abandoned && !self.amp_limited && self.eligible_outstanding() {
+            if matches!(op, Op::Send { .. } | Op::Ack { .. } | Op::Tick | Op::Discard { .. } | Op::Rcvd { .. }) {
+                self.stat("timer_armed_checks");
+                if post.loss_detection_timer.is_none() {
+                    self.fail(
+                        format!("C13.timer.coverage:unarmed-after-{kind}"),
+                        format!(
+                            "after {kind} the loss-detection timer is not armed although ack-eliciting packets are in flight (initial {}, handshake {}, data {}) and the path is not amplification-limited",
+                            self.out_ae[0], self.out_ae[1], self.out_ae[2]
+                        ),
+                    );
+                }
+            }
+            // d.3 after an ACK that newly acknowledged outstanding packets the timer must have been
+            // re-computed: it cannot be later than both the time threshold of a packet that is in flight
+            // now and the probe timeout of the acknowledged space
+            if let Op::Ack { e, .. } = op {
+                if acked_outstanding && self.out_ae[*e] > 0 && (*e != 2 || self.hs_done) {
+                    self.stat("timer_rearm_after_ack_checks");
+                    let k = post.pto_count.min(20);
+                    let mut pto = (post.smoothed_rtt + std::cmp::max(4 * post.rttvar, MS)) * (1 << k);
+                    if *e == 2 {
+                        pto += post.max_ack_delay * (1 << k);
+                    }
+                    let latest = std::cmp::max(now + post.loss_delay, self.last_ae[*e].map_or(now, |t| t + pto)) + MS;
+                    if post.loss_detection_timer.is_some_and(|t| t > latest) {
+                        self.fail(
+                            "C13.timer.coverage:late-after-ack".into(),
+                            format!(
+                                "after an ACK that newly acknowledged {} packets the timer stands at {} us; with the estimates after that ACK (loss_delay {} us, PTO {} us) it cannot be later than {} us (now {} us)",
+                                EP[*e],
+                                self.us(post.loss_detection_timer.unwrap()),
+                                dur_us(post.loss_delay),
+                                dur_us(pto),
+                                self.us(latest),
+                                self.us(now)
+                            ),
+                        );
+                    }
+                }
+            }
+            let k = post.pto_count.min(20);
+            let pto = (post.smoothed_rtt + std::cmp::max(4 * post.rttvar, MS) + post.max_ack_delay) * (1 << k);
+            let bound = pto * 2 + post.loss_delay + post.max_ack_delay + Duration::from_millis(30);
+            // timers may have been armed under the estimates in force earlier
+            let quiet = now.saturating_duration_since(self.last_progress);
+            if quiet.is_zero() {
+                self.bound_since_progress = bound;
+            } else {
+                self.bound_since_progress = self.bound_since_progress.max(bound);
+            }
+            self.bound_max = self.bound_max.max(bound);
+            if matches!(op, Op::Tick) {
+                self.stat("timer_liveness_checks");
+                // a timer that is still pending (or overdue only by the ack-delay allowance of the time
+                // threshold) will produce progress when it fires; beyond the hard cap even that is a stall
+                let pending = post.loss_detection_timer.is_some_and(|t| t + post.max_ack_delay + 2 * MS >= now);
+                let hard_cap = self.bound_max * 4 + Duration::from_secs(1);
+                if (quiet > self.bound_since_progress && !pending) || quiet > hard_cap {
+                    self.fail(
+                        "C13.timer.coverage:stalled".into(),
+                        format!(
+                            "ack-eliciting packets outstanding (initial {}, handshake {}, data {}) but for {} us of ticking (> bound {} us) nothing was acknowledged, declared lost or probed; timer = {:?} us, now = {} us",
+                            self.out_ae[0],
+                            self.out_ae[1],
+                            self.out_ae[2],
+                            dur_us(quiet),
+                            dur_us(self.bound_since_progress),
+                            post.loss_detection_timer.map(|t| self.us(t)),
+                            self.us(now)
+                        ),
+                    );
+                }
+            }
+        }
+
+        // ---------------- j: window respected ------------------------------------------------------
+        if let Some(q) = quota {
+            self.last_quota = q;
+            match q {
+                Some(q) => {
+                    self.stat("quota_granted");
+                    if pre.bytes_in_flight >= pre.congestion_window && need_pre == 0 {
+                        self.stat("quota_granted_beyond_window");
+                        self.stat_max("max_bif_over_cwnd_pct_at_grant", (pre.bytes_in_flight * 100 / pre.congestion_window.max(1)) as u64);
+                        self.fail(
+                            "C13.window:pacer-ignores-bytes-in-flight".into(),
+                            format!(
+                                "send_quota() granted {q} bytes (>= one datagram of {}) while bytes_in_flight {} >= congestion window {} and no probe was pending",
+                                self.mtu(), pre.bytes_in_flight, pre.congestion_window
+                            ),
+                        );
+                    }
+                }
+                None => self.stat("quota_denied"),
+            }
+        }
+
+        // ---------------- abstract state for evidence ----------------------------------------------
+        {
+            let timer_kind = match (post.loss_detection_timer, loss_time_armed) {
+                (None, _) => 0u64,
+                (Some(_), true) => 1,
+                (Some(_), false) => 2,
+            };
+            let bits = [
+                self.sc.server as u64,
+                self.hs_key as u64,
+                self.hs_ack as u64,
+                self.hs_done as u64,
+                self.amp_limited as u64,
+                post.pto_count.min(7) as u64,
+                post.congestion_recovery_start_time.is_some() as u64,
+                (post.congestion_window < post.ssthresh) as u64,
+                (post.congestion_window == 2 * self.mtu()) as u64,
+                timer_kind,
+                (self.out_ae[0] > 0) as u64,
+                (self.out_ae[1] > 0) as u64,
+                (self.out_ae[2] > 0) as u64,
+                (need_post > 0) as u64,
+                (post.bytes_in_flight >= post.congestion_window) as u64,
+            ];
+            let mut h = 0xcbf29ce484222325u64;
+            for b in bits {
+                h = (h ^ b).wrapping_mul(0x100000001b3);
+            }
+            self.states.insert(h);
+        }
+        if self.trace {
+            eprintln!(
+                "#{} t={}us {:?} | cwnd {} ssthresh {} bif {} (ledger {}) rec {:?} pto_count {} timer {:?} srtt {} rttvar {} loss_delay {} need {:?} lost {:?} newly {:?}",
+                self.nops - 1,
+                self.us(now),
+                op,
+                post.congestion_window,
+                post.ssthresh as i64,
+                post.bytes_in_flight,
+                self.led_bif,
+                post.congestion_recovery_start_time.map(|t| self.us(t)),
+                post.pto_count,
+                post.loss_detection_timer.map(|t| self.us(t)),
+                dur_us(post.smoothed_rtt),
+                dur_us(post.rttvar),
+                dur_us(post.loss_delay),
+                post.need_send_ack_eliciting_packets,
+                lost_now,
+                newly
+            );
+        }
+        self.pre = post;
+    }
+}
+
+// ------------------------------------------------------------------------------------------------
+// workload generator: closed loop with a tiny network / receiver model plus hostile extras
+// ------------------------------------------------------------------------------------------------
+
+#[derive(Clone, Debug)]
+struct Link {
+    owd_us: u64,
+    jitter_pct: u64,
+    loss_pm: u64,
+    reorder_pm: u64,
+    ce_pm: u64,
+    ack_every: u64,
+    ack_delay_us: u64,
+    ecn: bool,
+}
+
+enum Ev {
+    Arrive { e: usize, pn: u64, ce: bool, ae: bool },
+    AckGen { e: usize },
+    AckArrive { op: Op },
+}
+
+struct Gen {
+    rng: Rng,
+    kind: u64,       // 0 bulk, 1 handshake, 2 blackout, 3 chaos
+    tick_style: u64, // 0 cadence 10 ms, 1 exact timer, 2 random
+    link: Link,
+    gappy: bool,
+    next_pn: [u64; 3],
+    events: Vec<(u64, u64, Ev)>, // (at_us, seq, ev)
+    seq: u64,
+    rcv: [BTreeSet<u64>; 3],
+    rcv_largest_at: [u64; 3],
+    rcv_pending: [u64; 3],
+    rcv_ackgen_scheduled: [bool; 3],
+    rcv_ce: [u64; 3],
+    dark: bool,
+    dark_at_op: usize,
+    /// per history: probability (in quarters) that a requested probe is actually sent
+    probe_answer_q: u64,
+    ops: Vec<Op>,
+}
+
+impl Gen {
+    fn new(seed: u64) -> (Scenario, Gen) {
+        let mut rng = Rng::new(seed);
+        let kind = *rng.pick(&[0u64, 0, 0, 1, 1, 2, 2, 3]);
+        let sc = Scenario {
+            server: rng.bool(),
+            mtu: *rng.pick(&[1200u16, 1200, 1200, 1400]),
+            mad_ms: *rng.pick(&[0u64, 5, 25, 25, 100]),
+        };
+        let link = Link {
+            owd_us: *rng.pick(&[200u64, 2_000, 10_000, 25_000, 50_000, 150_000]),
+            jitter_pct: *rng.pick(&[0u64, 5, 30]),
+            loss_pm: *rng.pick(&[0u64, 5, 20, 100, 300]),
+            reorder_pm: *rng.pick(&[0u64, 0, 20, 200]),
+            ce_pm: *rng.pick(&[0u64, 20, 200]),
+            ack_every: *rng.pick(&[1u64, 2, 2, 10]),
+            ack_delay_us: sc.mad_ms * 1000,
+            ecn: rng.chance(1, 3),
+        };
+        let tick_style = if kind == 2 { *rng.pick(&[1u64, 1, 0]) } else { rng.below(3) };
+        let g = Gen {
+            gappy: rng.chance(1, 10),
+            kind,
+            tick_style,
+            link,
+            next_pn: [0; 3],
+            events: vec![],
+            seq: 0,
+            rcv: Default::default(),
+            rcv_largest_at: [0; 3],
+            rcv_pending: [0; 3],
+            rcv_ackgen_scheduled: [false; 3],
+            rcv_ce: [0; 3],
+            dark: false,
+            dark_at_op: usize::MAX,
+            probe_answer_q: *rng.pick(&[0u64, 2, 4, 4]),
+            ops: vec![],
+            rng,
+        };
+        (sc, g)
+    }
+
+    async fn op(&mut self, sim: &mut Sim, op: Op) {
+        sim.apply(&op).await;
+        self.ops.push(op);
+    }
+
+    fn push_ev(&mut self, at: u64, ev: Ev) {
+        self.seq += 1;
+        self.events.push((at, self.seq, ev));
+    }
+
+    fn delay(&mut self) -> u64 {
+        let j = self.link.owd_us * self.link.jitter_pct / 100;
+        let mut d = self.link.owd_us + if j > 0 { self.rng.below(2 * j + 1) } else { 0 } - j.min(self.link.owd_us);
+        if self.rng.below(1000) < self.link.reorder_pm {
+            d += self.link.owd_us * self.rng.range(2, 20) / 10;
+        }
+        d.max(1)
+    }
+
+    /// handle everything the network / receiver does up to `target`; ACK arrivals become ops at their arrival time
+    async fn advance_to(&mut self, sim: &mut Sim, target: u64) {
+        loop {
+            if sim.dead {
+                return;
+            }
+            let Some(i) = self.events.iter().enumerate().filter(|(_, ev)| ev.0 <= target).min_by_key(|(_, ev)| (ev.0, ev.1)).map(|(i, _)| i) else {
+                break;
+            };
+            let (at, _, ev) = self.events.swap_remove(i);
+            match ev {
+                Ev::Arrive { e, pn, ce, ae } => {
+                    if self.dark {
+                        continue;
+                    }
+                    let out_of_order = self.rcv[e].last().is_some_and(|l| *l > pn || pn > *l + 1);
+                    if self.rcv[e].last().is_none_or(|l| pn > *l) {
+                        self.rcv_largest_at[e] = at;
+                    }
+                    self.rcv[e].insert(pn);
+                    if ce {
+                        self.rcv_ce[e] += 1;
+                    }
+                    if ae {
+                        self.rcv_pending[e] += 1;
+                        if e != 2 || out_of_order || self.rcv_pending[e] >= self.link.ack_every {
+                            self.push_ev(at, Ev::AckGen { e });
+                        } else if !self.rcv_ackgen_scheduled[e] {
+                            self.rcv_ackgen_scheduled[e] = true;
+                            self.push_ev(at + self.link.ack_delay_us, Ev::AckGen { e });
+                        }
+                    }
+                }
+                Ev::AckGen { e } => {
+                    self.rcv_ackgen_scheduled[e] = false;
+                    if self.rcv_pending[e] == 0 || self.rcv[e].is_empty() {
+                        continue;
+                    }
+                    self.rcv_pending[e] = 0;
+                    let mut ranges: Vec<(u64, u64)> = vec![];
+                    for &pn in self.rcv[e].iter().rev() {
+                        match ranges.last_mut() {
+                            Some(r) if r.0 == pn + 1 => r.0 = pn,
+                            _ => {
+                                if ranges.len() == 6 {
+                                    break;
+                                }
+                                ranges.push((pn, pn));
+                            }
+                        }
+                    }
+                    let ecn = self.link.ecn.then(|| [self.rcv[e].len() as u64 - self.rcv_ce[e], 0, self.rcv_ce[e]]);
+                    let op = Op::Ack { e, ranges, delay: at - self.rcv_largest_at[e], ecn };
+                    if self.rng.below(1000) >= self.link.loss_pm {
+                        let d = self.delay();
+                        self.push_ev(at + d, Ev::AckArrive { op });
+                    }
+                }
+                Ev::AckArrive { op } => {
+                    if self.dark {
+                        continue;
+                    }
+                    let Op::Ack { e, .. } = &op else { unreachable!() };
+                    if sim.discarded[*e] {
+                        continue;
+                    }
+                    let now = sim.now_us();
+                    if at > now {
+                        self.op(sim, Op::Adv { us: at - now }).await;
+                    }
+                    let e = *e;
+                    self.op(sim, op).await;
+                    // production: the client learns of the Handshake ACK right after processing it
+                    if e == 1 && !sim.sc.server && !sim.hs_ack && self.rng.chance(9, 10) {
+                        self.op(sim, Op::HsAck).await;
+                    }
+                }
+            }
+        }
+        let now = sim.now_us();
+        if target > now && !sim.dead {
+            self.op(sim, Op::Adv { us: target - now }).await;
+        }
+    }
+
+    fn pick_epoch(&mut self, sim: &Sim) -> Option<usize> {
+        let mut allowed = vec![];
+        if !sim.discarded[0] && !sim.hs_done {
+            allowed.push(0);
+        }
+        if sim.hs_key && !sim.discarded[1] {
+            allowed.push(1);
+            allowed.push(1);
+        }
+        if sim.hs_done {
+            allowed.extend([2, 2, 2, 2]);
+        } else if self.rng.chance(1, 6) {
+            allowed.push(2);
+        }
+        if allowed.is_empty() { None } else { Some(*self.rng.pick(&allowed)) }
+    }
+
+    async fn send_one(&mut self, sim: &mut Sim, e: usize, size: usize, ae: bool, inf: bool) {
+        let pn = self.next_pn[e];
+        self.next_pn[e] += 1 + if self.gappy && self.rng.chance(1, 6) { self.rng.range(1, 3) } else { 0 };
+        let ack = if self.rng.chance(1, 4) { Some(self.rng.below(1000)) } else { None };
+        self.op(sim, Op::Send { e, pn, size, ae, inf, ack }).await;
+        let now = sim.now_us();
+        if !self.dark && self.rng.below(1000) >= self.link.loss_pm {
+            let d = self.delay();
+            let ce = self.link.ecn && self.rng.below(1000) < self.link.ce_pm;
+            self.push_ev(now + d, Ev::Arrive { e, pn, ce, ae });
+        }
+    }
+
+    /// production order: `send_quota()` first, then packets within the granted quota
+    async fn send_burst(&mut self, sim: &mut Sim, e: usize, max_pkts: u64, probe: bool) {
+        self.op(sim, Op::Quota).await;
+        let Some(mut q) = sim.last_quota else { return };
+        let mtu = sim.mtu();
+        let n = if probe { 1 } else { self.rng.range(1, max_pkts.max(1)) };
+        for _ in 0..n {
+            if sim.dead || sim.discarded[e] || q < 30 {
+                break;
+            }
+            let size = if self.rng.chance(3, 4) { mtu.min(q) } else { self.rng.range(30, mtu as u64) as usize }.min(q);
+            let (ae, inf) = if probe {
+                (true, true)
+            } else {
+                match self.rng.below(100) {
+                    0..=84 => (true, true),
+                    85..=92 => (false, false),
+                    _ => (false, true),
+                }
+            };
+            self.send_one(sim, e, size, ae, inf).await;
+            if inf {
+                q -= size;
+            }
+        }
+    }
+
+    async fn time_step(&mut self, sim: &mut Sim) {
+        let now = sim.now_us();
+        let timer = sim.pre.loss_detection_timer.map(|t| sim.us_ceil(t)).filter(|t| *t > now);
+        let next_ev = self.events.iter().map(|e| e.0).filter(|t| *t > now).min();
+        let target = match self.tick_style {
+            0 => now + 10_000 + if self.rng.chance(1, 5) { self.rng.below(3000) } else { 0 },
+            1 => {
+                let cap = now + *self.rng.pick(&[10_000u64, 50_000, 1_000_000, 30_000_000]);
+                let mut t = timer.unwrap_or(cap).min(cap);
+                if let Some(ev) = next_ev {
+                    if ev < t && !self.dark {
+                        t = ev;
+                    }
+                }
+                t
+            }
+            _ => now + *self.rng.pick(&[50u64, 1_000, 5_000, 20_000, 100_000, 1_000_000]),
+        };
+        self.advance_to(sim, target).await;
+        if self.tick_style != 2 || self.rng.chance(7, 10) {
+            self.op(sim, Op::Tick).await;
+            self.answer_probes(sim).await;
+        }
+    }
+
+    async fn answer_probes(&mut self, sim: &mut Sim) {
+        for e in 0..3 {
+            if sim.dead {
+                return;
+            }
+            if sim.pre.need_send_ack_eliciting_packets[e] > 0 && !sim.discarded[e] && self.rng.below(4) < self.probe_answer_q {
+                if e == 1 && !sim.hs_key {
+                    continue;
+                }
+                self.send_burst(sim, e, 1, true).await;
+            }
+        }
+    }
+
+    async fn chaos_ack(&mut self, sim: &mut Sim) {
+        let cands: Vec<usize> = (0..3).filter(|e| !sim.discarded[*e] && !sim.led[*e].is_empty()).collect();
+        if cands.is_empty() {
+            return;
+        }
+        let e = *self.rng.pick(&cands);
+        let keys: Vec<u64> = sim.led[e].keys().copied().collect();
+        let n = self.rng.range(1, 4);
+        let mut his: Vec<u64> = (0..n)
+            .map(|_| {
+                // biased to recent packets
+                let i = if self.rng.bool() { keys.len() - 1 - self.rng.usize(keys.len().min(8)) } else { self.rng.usize(keys.len()) };
+                keys[i]
+            })
+            .collect();
+        his.sort_unstable();
+        his.dedup();
+        his.reverse();
+        let mut ranges: Vec<(u64, u64)> = vec![];
+        for hi in his {
+            let len = self.rng.below(6);
+            let mut lo = hi.saturating_sub(len);
+            // keep lo on a sent packet number
+            lo = *sim.led[e].range(lo..=hi).next().map(|(k, _)| k).unwrap();
+            if let Some(prev) = ranges.last() {
+                if hi + 2 > prev.0 {
+                    continue;
+                }
+            }
+            ranges.push((lo, hi));
+        }
+        let delay = *self.rng.pick(&[0u64, 0, 100, 8_000, 25_000, 400_000, 5_000_000]);
+        let ecn = if self.rng.chance(1, 5) { Some([self.rng.below(50), 0, self.rng.below(6)]) } else { None };
+        self.op(sim, Op::Ack { e, ranges, delay, ecn }).await;
+        if e == 1 && !sim.sc.server && !sim.hs_ack && self.rng.chance(1, 2) {
+            self.op(sim, Op::HsAck).await;
+        }
+    }
+
+    async fn handshake_step(&mut self, sim: &mut Sim) {
+        if !sim.hs_key {
+            self.op(sim, Op::HsKey).await;
+        } else if !sim.hs_done {
+            if !sim.sc.server && !sim.hs_ack && self.rng.chance(1, 3) {
+                self.op(sim, Op::HsAck).await;
+                return;
+            }
+            self.op(sim, Op::HsDone).await;
+            if self.rng.chance(4, 5) {
+                // Paths::discard_initial_and_handshake_space
+                self.op(sim, Op::Discard { e: 0 }).await;
+                self.op(sim, Op::Discard { e: 1 }).await;
+            }
+        } else if !sim.discarded[1] {
+            self.op(sim, Op::Discard { e: 0 }).await;
+            self.op(sim, Op::Discard { e: 1 }).await;
+        }
+    }
+
+    async fn drive(&mut self, sim: &mut Sim, budget: usize) {
+        // preamble
+        if self.rng.chance(9, 10) {
+            self.op(sim, Op::Grant).await;
+        }
+        if self.kind == 0 || (self.kind == 3 && self.rng.bool()) {
+            self.op(sim, Op::HsKey).await;
+            if !sim.sc.server && self.rng.chance(4, 5) {
+                self.op(sim, Op::HsAck).await;
+            }
+            self.op(sim, Op::HsDone).await;
+            self.op(sim, Op::Discard { e: 0 }).await;
+            self.op(sim, Op::Discard { e: 1 }).await;
+        }
+        if self.kind == 2 {
+            self.dark_at_op = self.rng.range(2, 60) as usize;
+        }
+        let mut idle_streak = 0u32;
+        while !sim.dead && self.ops.len() < budget {
+            if self.kind == 2 && !self.dark && self.ops.len() >= self.dark_at_op {
+                self.dark = true;
+            }
+            let r = self.rng.below(100);
+            // weights per kind: send, time, chaos ack, handshake, misc
+            let (w_send, w_time, w_chaos, w_hs) = match self.kind {
+                0 => (40, 50, 2, 0),
+                1 => (30, 50, 3, 10),
+                2 => {
+                    if self.dark {
+                        (6, 88, 0, 2)
+                    } else {
+                        (35, 45, 2, 12)
+                    }
+                }
+                _ => (30, 30, 25, 8),
+            };
+            if r < w_send {
+                if let Some(e) = self.pick_epoch(sim) {
+                    let burst = *self.rng.pick(&[1u64, 2, 4, 10, 16]);
+                    self.send_burst(sim, e, burst, false).await;
+                    if sim.last_quota.is_none() {
+                        idle_streak += 1;
+                        if idle_streak > 2 {
+                            self.time_step(sim).await;
+                            idle_streak = 0;
+                        }
+                    }
+                } else {
+                    self.handshake_step(sim).await;
+                }
+            } else if r < w_send + w_time {
+                self.time_step(sim).await;
+            } else if r < w_send + w_time + w_chaos {
+                self.chaos_ack(sim).await;
+            } else if r < w_send + w_time + w_chaos + w_hs {
+                self.handshake_step(sim).await;
+            } else {
+                match self.rng.below(6) {
+                    0 => {
+                        let e = self.rng.usize(3);
+                        if !sim.discarded[e] {
+                            let pn = self.rng.below(200);
+                            let ae = self.rng.chance(3, 4);
+                            self.op(sim, Op::Rcvd { e, pn, ae }).await;
+                        }
+                    }
+                    1 => {
+                        if sim.sc.server && !sim.hs_done && self.rng.chance(1, 3) {
+                            self.op(sim, Op::EnterAmp).await;
+                        }
+                    }
+                    2 => self.op(sim, Op::Grant).await,
+                    3 => self.op(sim, Op::Tick).await,
+                    4 => {
+                        if self.kind != 2 {
+                            // short outage
+                            self.dark = !self.dark && self.rng.chance(1, 3);
+                        }
+                    }
+                    _ => self.op(sim, Op::Quota).await,
+                }
+            }
+        }
+    }
+}
+
+// ------------------------------------------------------------------------------------------------
+// running histories
+// ------------------------------------------------------------------------------------------------
+
+pub struct Outcome {
+    sc: Scenario,
+    ops: Vec<Op>,
+    fails: Vec<Fail>,
+    stats: BTreeMap<&'static str, u64>,
+    states: HashSet<u64>,
+    nontrivial: bool,
+    abandoned: bool,
+}
+
+fn runtime() -> tokio::runtime::Runtime {
+    tokio::runtime::Builder::new_current_thread().enable_time().start_paused(true).build().unwrap()
+}
+
+fn finish(sim: Sim, ops: Vec<Op>) -> Outcome {
+    Outcome {
+        nontrivial: sim.n_loss > 0 && sim.n_newack > 0 && sim.n_cwnd_change > 0,
+        abandoned: sim.abandoned,
+        sc: sim.sc,
+        ops,
+        fails: sim.fails,
+        stats: sim.stats,
+        states: sim.states,
+    }
+}
+
+fn run_generated(seed: u64, budget: usize) -> Outcome {
+    let rt = runtime();
+    rt.block_on(async {
+        let (sc, mut g) = Gen::new(seed);
+        let mut sim = Sim::new(&sc);
+        g.drive(&mut sim, budget).await;
+        finish(sim, g.ops)
+    })
+}
+
+fn run_ops(sc: &Scenario, ops: &[Op], trace: bool) -> Outcome {
+    let rt = runtime();
+    rt.block_on(async {
+        let mut sim = Sim::new(sc);
+        sim.trace = trace;
+        for op in ops {
+            sim.apply(op).await;
+        }
+        finish(sim, ops.to_vec())
+    })
+}
+
+fn replay_json(sc: &Scenario, ops: &[Op]) -> Value {
+    json!({"kind": "c13", "leg": "cc", "scenario": sc.to_json(), "ops": ops.iter().map(|o| o.to_json()).collect::<Vec<_>>()})
+}
+
+fn hist_hash(sc: &Scenario, ops: &[Op]) -> u64 {
+    let mut s = format!("{}{}{}", sc.server, sc.mtu, sc.mad_ms);
+    for o in ops {
+        s.push_str(&o.to_json().to_string());
+    }
+    vcore::fnv_str(&s)
+}
+
+fn absorb(rep: &mut Report, o: &Outcome) {
+    rep.evaluations += 1;
+    for (k, v) in &o.stats {
+        if k.starts_with("max_") {
+            rep.max(k, *v);
+        } else {
+            rep.add(k, *v);
+        }
+    }
+    for s in &o.states {
+        rep.set("controller_states", *s);
+    }
+    if o.abandoned {
+        rep.count("histories_abandoned_too_many_ptos");
+    }
+    if o.nontrivial {
+        rep.distinct(hist_hash(&o.sc, &o.ops));
+    }
+    for f in &o.fails {
+        let stored = rep.violation_counts.get(&f.sig).copied().unwrap_or(0);
+        let replay = if stored < 2 { replay_json(&o.sc, &o.ops[..=f.step.min(o.ops.len() - 1)]) } else { Value::Null };
+        rep.violation(f.sig.clone(), format!("step {}: {}", f.step, f.what), replay);
+    }
+}
+
+pub fn run(args: &Args, rep: &mut Report) {
+    rep.rule = "history = scenario (role, mtu, max_ack_delay) + sequence of send/quota/ack/advance/tick/discard/phase ops on one ArcCC; \
+                distinct = hash of scenario and op sequence; non-trivial = at least one loss declaration, one ACK that newly \
+                acknowledged packets and one congestion-window change were observed in the history"
+        .into();
+    if let Some(path) = args.get("replay") {
+        let v: Value = serde_json::from_str(&std::fs::read_to_string(path).unwrap()).unwrap();
+        let v = if v.get("replay").is_some() { v["replay"].clone() } else { v };
+        let sc = Scenario::from_json(&v["scenario"]);
+        let ops: Vec<Op> = v["ops"].as_array().unwrap().iter().map(Op::from_json).collect();
+        let o = run_ops(&sc, &ops, args.flag("trace"));
+        absorb(rep, &o);
+        return;
+    }
+    let thorough = args.get("tier") == Some("thorough");
+    let shard = args.u64("shard", 0);
+    let n = args.budget(if thorough { 6000 } else { 500 });
+    let mut rng = Rng::new(args.seed() ^ 0xc13).fork(shard);
+    for i in 0..n {
+        let seed = rng.next_u64();
+        let budget = *rng.pick(&[120usize, 300, 600, 1200]);
+        let o = run_generated(seed, budget);
+        absorb(rep, &o);
+        rep.add("ops_total", o.ops.len() as u64);
+        if i < 2 {
+            rep.sample(json!({
+                "scenario": o.sc.to_json(),
+                "n_ops": o.ops.len(),
+                "first_ops": o.ops.iter().take(14).map(|x| x.to_json()).collect::<Vec<_>>(),
+                "stats": o.stats.iter().map(|(k, v)| (k.to_string(), json!(v))).collect::<serde_json::Map<_, _>>(),
+            }));
+        }
+    }
+    rep.add("histories", n);
 }
